@@ -208,6 +208,21 @@ where
         cx.call(ev2("mulmod", "uint.mul_mod", N, &p, &ma, &mb, "none").s("par", "panic"), || ok(&xa.mul_mod(&xb, &nzp)));
         cx.call(ev2("mulmod", "uint.mul_mod_vartime", N, &p, &ma, &mb, "none").s("par", "either"), || ok(&xa.mul_mod_vartime(&xb, &nzp)));
         cx.call(ev2("mulmod", "uint.MulMod", N, &p, &ma, &mb, "none").s("par", "exact"), || ok(&MulMod::mul_mod(&xa, &xb, &up)));
+        if it % 4 == 0 {
+            let (zp, za, zb) = zero_divisors(&mut cx.rng, N, it / 4);
+            if vcmp(&za, &zp).is_lt() && vcmp(&zb, &zp).is_lt() {
+                let (ya, yb, yp) = (u::<N>(&za), u::<N>(&zb), u::<N>(&zp));
+                let nzq = nz::<N>(&zp).unwrap();
+                cx.call(ev2("mulmod", "uint.mul_mod", N, &zp, &za, &zb, "none").s("par", "panic"), || ok(&ya.mul_mod(&yb, &nzq)));
+                cx.call(ev2("mulmod", "uint.mul_mod_vartime", N, &zp, &za, &zb, "none").s("par", "either"), || ok(&ya.mul_mod_vartime(&yb, &nzq)));
+                cx.call(ev2("mulmod", "uint.MulMod", N, &zp, &za, &zb, "none").s("par", "exact"), || ok(&MulMod::mul_mod(&ya, &yb, &yp)));
+                // sums and differences that land exactly on 0 / p
+                let nb = fit(vsub(&zp, &za), N);
+                let ynb = u::<N>(&nb);
+                cx.call(ev2("addmod", "uint.add_mod", N, &zp, &za, &nb, "sum2p"), || ok(&ya.add_mod(&ynb, &yp)));
+                cx.call(ev2("submod", "uint.sub_mod", N, &zp, &za, &za, "diff"), || ok(&ya.sub_mod(&ya, &yp)));
+            }
+        }
         // halving lives on the Montgomery forms: the stored representation is halved modulo p
         if odd_p {
             let op = odd::<N>(&p).unwrap();
@@ -304,6 +319,18 @@ fn boxed_general(cx: &mut Cx, iters: usize, maxl: usize) {
         let (xa, xb) = (bx(&ma), bx(&mb));
         cx.call(ev2("mulmod", "boxed.mul_mod", nl, &p, &ma, &mb, "none").s("par", "panic"), || okb(&xa.mul_mod(&xb, &bp)));
         cx.call(ev2("mulmod", "boxed.MulMod", nl, &p, &ma, &mb, "none").s("par", "either"), || okb(&MulMod::mul_mod(&xa, &xb, &bp)));
+        if it % 4 == 0 {
+            let (zp, za, zb) = zero_divisors(&mut cx.rng, nl, it / 4);
+            if vcmp(&za, &zp).is_lt() && vcmp(&zb, &zp).is_lt() {
+                let (ya, yb, yp) = (bx(&za), bx(&zb), bx(&zp));
+                cx.call(ev2("mulmod", "boxed.mul_mod", nl, &zp, &za, &zb, "none").s("par", "panic"), || okb(&ya.mul_mod(&yb, &yp)));
+                cx.call(ev2("mulmod", "boxed.MulMod", nl, &zp, &za, &zb, "none").s("par", "either"), || okb(&MulMod::mul_mod(&ya, &yb, &yp)));
+                let nb = fit(vsub(&zp, &za), nl);
+                let ynb = bx(&nb);
+                cx.call(ev2("addmod", "boxed.add_mod", nl, &zp, &za, &nb, "ab"), || okb(&ya.add_mod(&ynb, &yp)));
+                cx.call(ev2("submod", "boxed.sub_mod", nl, &zp, &za, &za, "ab"), || okb(&ya.sub_mod(&ya, &yp)));
+            }
+        }
         if odd_p {
             let op = oddb(&p).unwrap();
             let params = if it % 2 == 0 { BoxedMontyParams::new(op) } else { BoxedMontyParams::new_vartime(op) };
@@ -337,6 +364,23 @@ fn boxed_special(cx: &mut Cx, iters: usize, maxl: usize) {
         let (xa, xb) = (bx(&ma), bx(&mb));
         cx.call(sv2("mulmod", "boxed.mul_mod_special", nl, c, &ma, &mb, "none").s("par", "exact"), || okb(&xa.mul_mod_special(&xb, lc)));
     }
+}
+
+/// composite odd modulus p = q*r (or q*q) with zero divisors a = q*t, b = r*u: the product is an exact multiple of p,
+/// so every final reduction sees exactly p (the boundary between "subtract" and "keep")
+fn zero_divisors(r: &mut Rng, n: usize, it: usize) -> (Vec<u64>, Vec<u64>, Vec<u64>) {
+    let bits = 64 * n;
+    let hb = bits / 2;
+    let half = |r: &mut Rng| -> Vec<u64> { let mut v = nat(r, n); v = vmask(&v, hb); v[0] |= 1; let top = vpow2(hb - 1); vadd(&vmask(&v, hb - 1), &top) };   // odd, exactly hb bits
+    let q = half(r);
+    let rr = if it % 3 == 0 { q.clone() } else { half(r) };
+    let p = fit(vmul(&q, &rr), n);
+    // t, u small so that a, b < p
+    let t = vec![1 + r.below(1 << 10) as u64];
+    let u_ = vec![1 + r.below(1 << 10) as u64];
+    let a = fit(vmul(&q, &t), n);
+    let b = fit(vmul(&rr, &u_), n);
+    (p, a, b)
 }
 
 fn main() {
